@@ -19,6 +19,8 @@ except AttributeError:
 operators: List[str] = list("+-*")
 common_variables: List[str] = list("xyz")
 variables: List[str] = list("abcdfghjklmnopqrstuvwxyz")
+# the same list under a name that `common_variables` parameters do not shadow
+common_variables_pool: List[str] = common_variables
 max_const: int = 12
 _pretty_numbers: bool = True
 
@@ -197,9 +199,17 @@ def get_rand_vars(
             rand_vars.add(_rand)
         iters += 1
         if iters > num_vars * 10:
-            raise ValueError(
-                f"Unable to fulfill request for {num_vars} random variables"
-            )
+            # The draws kept landing on excluded or already chosen letters. When
+            # enough letters are still allowed, take the missing ones from those.
+            pool = common_variables_pool if common_variables is True else variables
+            allowed = [v for v in pool if v not in exclude_vars and v not in rand_vars]
+            missing = num_vars - len(rand_vars)
+            if len(allowed) < missing:
+                raise ValueError(
+                    f"Unable to fulfill request for {num_vars} random variables"
+                )
+            random.shuffle(allowed)
+            rand_vars.update(allowed[:missing])
     out = list(rand_vars)
     random.shuffle(out)
     return out
